@@ -1,0 +1,23 @@
+//go:build verif
+
+package enterleavesensorpb
+
+// Machine-checked contracts for this package (comment-only; excluded from normal builds).
+
+//@ property C20
+//@ // ---- enter/leave totals: an ENTER event adds one to the enter total, a LEAVE event adds one to the leave total, the
+//@ // other total is carried over; a total supplied by the caller that differs from the current one replaces it ----
+//@ pure func evOf(m) = cast(m, *traits.EnterLeaveEvent)
+//@ pure func isEv(m) = istype(m, *traits.EnterLeaveEvent) && cast(m, *traits.EnterLeaveEvent) != nil
+//@
+//@ // The totals are optional int32 fields (*int32).  The spec language has no dereference of a pointer to a basic type and
+//@ // does not admit the GetEnterTotal/GetLeaveTotal accessors ("not a pure library accessor"), so the arithmetic rule
+//@ // (total' == total + 1) cannot be stated; what is checked: the interceptor cannot panic and always leaves both totals
+//@ // present, and a total the caller did not supply is a fresh cell (the stored event's cell is not shared or written).
+//@ func (*Model).CreateEnterLeaveEvent$1(current, value)
+//@   requires isEv(current) && isEv(value) && evOf(current) != evOf(value)
+//@   ensures [present] evOf(value).EnterTotal != nil && evOf(value).LeaveTotal != nil
+//@   ensures [fresh-enter] old(evOf(value).EnterTotal) == nil ==> fresh(evOf(value).EnterTotal)
+//@   ensures [fresh-leave] old(evOf(value).LeaveTotal) == nil ==> fresh(evOf(value).LeaveTotal)
+//@   ensures [supplied-or-fresh] (evOf(value).EnterTotal == old(evOf(value).EnterTotal) || fresh(evOf(value).EnterTotal)) && (evOf(value).LeaveTotal == old(evOf(value).LeaveTotal) || fresh(evOf(value).LeaveTotal))
+//@   ensures [stored-kept] evOf(current).EnterTotal == old(evOf(current).EnterTotal) && evOf(current).LeaveTotal == old(evOf(current).LeaveTotal)
